@@ -310,6 +310,54 @@ func (raceEngine) Check(prop, tier string, c *runner.Case) *runner.Result {
 		res.Evals += 8
 		res.Ev("concurrent_new", 4)
 	}
+	// analyzers of two DIFFERENT documents working at the same time: nothing may be shared between them
+	// (a package-level scratch variable or cache would show here, as a race or as a wrong answer)
+	{
+		other := jx.Obj{"swagger": "2.0", "info": jx.Obj{"title": "other", "version": "1"}, "consumes": jx.Arr{"application/other"},
+			"paths": jx.Obj{"/other/{id}": jx.Obj{"parameters": jx.Arr{jx.Obj{"name": "id", "in": "path", "type": "string", "required": true, "pattern": "^o"}},
+				"get":  jx.Obj{"operationId": "otherGet", "security": jx.Arr{jx.Obj{"k": jx.Arr{}}}, "responses": jx.Obj{"200": jx.Obj{"description": "ok", "schema": jx.Obj{"$ref": "#/definitions/Other"}}}},
+				"post": jx.Obj{"operationId": "otherPost", "produces": jx.Arr{"text/other"}, "parameters": jx.Arr{jx.Obj{"name": "b", "in": "body", "schema": jx.Obj{"$ref": "#/definitions/Other"}}}, "responses": jx.Obj{"default": jx.Obj{"description": "d"}}}}},
+			"securityDefinitions": jx.Obj{"k": jx.Obj{"type": "apiKey", "name": "k", "in": "header"}},
+			"definitions":         jx.Obj{"Other": jx.Obj{"type": "object", "properties": jx.Obj{"e": jx.Obj{"type": "string", "enum": jx.Arr{"o"}}}}}}
+		osw, err := lib.Load(jx.Canon(other))
+		if err == nil {
+			ogs := GetterList(DomainOf(other))
+			osp := analysis.New(osw)
+			oseq := make([]string, len(ogs))
+			for i, g := range ogs {
+				oseq[i] = Answer(g, osp)
+			}
+			var wg sync.WaitGroup
+			var bad atomic.Int64
+			for gi := 0; gi < 4; gi++ {
+				wg.Add(1)
+				go func(gi int) {
+					defer wg.Done()
+					if gi%2 == 0 {
+						s2 := analysis.New(osw)
+						for i, g := range ogs {
+							if Answer(g, s2) != oseq[i] {
+								bad.Add(1)
+							}
+						}
+					} else {
+						s2 := analysis.New(sw)
+						for i, g := range gs {
+							if i%3 == gi%3 && Answer(g, s2) != seq[i] {
+								bad.Add(1)
+							}
+						}
+					}
+				}(gi)
+			}
+			wg.Wait()
+			if bad.Load() > 0 {
+				res.Violate("answer-differs", "answer-differs:two-documents", "", fmt.Sprintf("%d answers differ when analyzers of two different documents work concurrently", bad.Load()))
+			}
+			res.Evals += len(ogs) * 2
+			res.Ev("two_document_rounds", 1)
+		}
+	}
 	if n := mism.Load(); n > 0 {
 		m, _ := firstMismatch.Load().(string)
 		res.Violate("answer-differs", "answer-differs:concurrent", "", fmt.Sprintf("%d concurrent answers differ from the sequential ones; first: %s", n, m))
